@@ -351,6 +351,35 @@ func runC01(c *Ctx, r *Report) {
 				r.Fail("C01.R3", ssaFuncName(fn), what+" short-circuits", c.Pos(fn.Pos()), "no test of the form `operator == "+names[opK]+" && left == constant` found before the right operand is evaluated")
 			}
 		}
+		// left operand is evaluated before the right one
+		for _, re := range rightEvals {
+			okOrder := false
+			for _, ec := range callsIn(fn, evalE) {
+				arg := ec.Common().Args[1]
+				for i := 0; i < 3; i++ {
+					switch a := arg.(type) {
+					case *ssa.MakeInterface:
+						arg = a.X
+					case *ssa.ChangeInterface:
+						arg = a.X
+					}
+				}
+				if ld, ok := arg.(*ssa.UnOp); ok && isFieldAddrOf(ld.X, infT, "Left") && instrDominates(ec, re) {
+					okOrder = true
+				}
+			}
+			// the assignment form evaluates only the right side through Eval (the left is a target): skip it
+			isAssign := false
+			for _, ref := range *re.Referrers() {
+				if call, ok := ref.(*ssa.Call); ok && isCallTo(call, c.Fn("eval", "State.evalAssignment")) {
+					isAssign = true
+				}
+			}
+			if isAssign {
+				continue
+			}
+			r.Check(okOrder, "C01.R3", ssaFuncName(fn), "left operand is evaluated before the right operand", c.Pos(re.Pos()), "the right operand of a binary operator can be evaluated before (or without) the left one: side effects happen in the wrong order")
+		}
 		if falseG == nil || trueG == nil || len(rightEvals) == 0 {
 			r.Undecided("C01.R3: FALSE/TRUE globals or the right-operand evaluation not found")
 		} else {
